@@ -399,6 +399,14 @@ func (u *Unit) libraryCall(c *ast.CallExpr, fun ast.Expr, env *Env) ([]Outcome, 
 	case "sync.RWMutex.RLock":
 		u.lockOp(env, fun.(*ast.SelectorExpr).X, "R", true, c)
 		return ret(env), true
+	case "sync.Mutex.TryLock", "sync.RWMutex.TryLock", "sync.RWMutex.TryRLock":
+		mode := "W"
+		if fn.Name() == "TryRLock" {
+			mode = "R"
+		}
+		te := env.clone()
+		u.lockOp(te, fun.(*ast.SelectorExpr).X, mode, true, c)
+		return []Outcome{{env: te, kind: oReturn, vals: []Value{{True, boolT}}}, {env: env, kind: oReturn, vals: []Value{{False, boolT}}}}, true
 	case "sync.Mutex.Unlock", "sync.RWMutex.Unlock":
 		u.lockOp(env, fun.(*ast.SelectorExpr).X, "W", false, c)
 		return ret(env), true
@@ -610,6 +618,7 @@ func (u *Unit) fieldCell(e ast.Expr, env *Env) (Term, string) {
 // locks (ghost: which locks this activation holds and in which mode)
 
 func (u *Unit) lockOp(env *Env, lockExpr ast.Expr, mode string, acquire bool, at ast.Node) {
+	u.usesLocks = true
 	key := u.exprText(lockExpr)
 	if acquire {
 		if cur, ok := env.held[key]; ok {
